@@ -30,6 +30,7 @@ theorem verifyProof_ok_iff (s s' : State) (proof : ProofArg) (path : PathArg) (d
       cases sd with
       | empty => simp at h
       | garbage => simp at h
+      | nosum => simp at h
       | sig σ =>
         by_cases hts : s.ts > ts
         · simp [hts] at h
@@ -83,6 +84,7 @@ theorem verifyHeader_ok_iff (s : State) (h : Header) :
     cases hs : h.sig with
     | empty => simp
     | garbage => simp
+    | nosum => simp
     | sig σ =>
       by_cases hv : verifySig s.key (encSignBytes ⟨s.seq, h.ts, s.div, sentinelHeaderPath, h.hdata⟩) σ = true
       · have : σ = .signed s.key (encSignBytes ⟨s.seq, h.ts, s.div, sentinelHeaderPath, h.hdata⟩) := by
@@ -339,6 +341,7 @@ theorem freeze_only_by_misbehaviour (pd : Bytes → Bool) (s : State) (op : Op)
           cases hs : sd.sig with
           | empty => simp [hs] at h
           | garbage => simp [hs] at h
+          | nosum => simp [hs] at h
           | sig σ =>
             simp only [hs] at h
             by_cases hv : verifySig s.key (encSignBytes ⟨w.m.seq, sd.ts, s.div, sd.path, sd.data⟩) σ = true
